@@ -14,8 +14,8 @@ import (
 	"strings"
 
 	dbm "github.com/cometbft/cometbft-db"
-	"github.com/cosmos/cosmos-sdk/codec"
 	abci "github.com/cometbft/cometbft/abci/types"
+	"github.com/cosmos/cosmos-sdk/codec"
 	sdk "github.com/cosmos/cosmos-sdk/types"
 	banktypes "github.com/cosmos/cosmos-sdk/x/bank/types"
 	aoltypes "github.com/medibloc/panacea-core/v2/x/aol/types"
@@ -185,7 +185,9 @@ func (e *twinEnv) mixedOps() []mixedOp {
 	k := e.DidKey
 	burn, _ := sdk.AccAddressFromBech32(burntypes.BurnAddress)
 	one := func(name string, signers []*world.Account, msg sdk.Msg) mixedOp {
-		return mixedOp{name, func(w *world.World) world.TxSpec { return world.TxSpec{Msgs: []sdk.Msg{msg}, Signers: signers, Fee: aolFee} }}
+		return mixedOp{name, func(w *world.World) world.TxSpec {
+			return world.TxSpec{Msgs: []sdk.Msg{msg}, Signers: signers, Fee: aolFee}
+		}}
 	}
 	seqOf := func(w *world.World, did string) uint64 { return w.App.DidKeeper.GetDIDDocument(w.Ctx(), did).Sequence }
 	return []mixedOp{
